@@ -80,7 +80,27 @@ def enum_chain(src, K, n):
     return set(range(lo, max(lo, hi)))
 
 
+
+def solver_defaults_rule(cx):
+    """shared by C07 and C09: every Levenberg-Marquardt run uses the solver's default (tight, relative) stopping tolerances"""
+    sites = []
+    for b in E.user_bodies(cx.facts):
+        for s in b.calls('*::minimize'):
+            if 'LevenbergMarquardt' in (b.callee(s.data)[1] or '') or match('(has (call LevenbergMarquardt::new))', cx.arg(s, 0)) is not None:
+                sites.append((b, s))
+    ok = True
+    bad = []
+    for b, s in sites:
+        cx.analysed_fns.add(b.name)
+        if match('(call LevenbergMarquardt::new)', cx.arg(s, 0)) is None:
+            ok = False
+            bad.append(f'{b.name}: {show(cx.arg(s, 0))[:160]}')
+    cx.ob('EXPR', 'LevenbergMarquardt:default-tolerances', ok and len(sites) >= 3,
+          'every minimisation runs LevenbergMarquardt::new() unmodified: the default ftol / xtol / gtol are relative and tight, a loosened one stops short of the stationary point '
+          '(circle far from the origin, pose with a large lever arm)', found='; '.join(bad) or f'{len(sites)} minimize sites')
+
 def run(cx):
+    solver_defaults_rule(cx)
     b = cx.fn('func1::polynomial::Polynomial::least_squares')
     if b:
         dag = b.dag()
